@@ -75,6 +75,9 @@ def run(ctx):
     for cfg in sorted(ctx.progs):
         noninterference(ctx, cfg)
     cache_tuning(ctx)
+    levels_arithmetic(ctx)
+    from rules import storage_shared as ss
+    ss.put_unconditional(ctx, 'C14')
     ds.join_rules(ctx, 'C14', want_writer_rule=True)
     preload_readonly(ctx)
     cfg_twins(ctx)
@@ -104,6 +107,9 @@ def noninterference(ctx, cfg):
                 last = nm.split('::')[-1]
                 if s.get('fn') in PLUMBING or s.get('fn') in TRANSPARENT_CALLS or last in ('poll', 'branch', 'from_residual', 'drop'):
                     continue
+                full = (s.get('res') or s.get('fn') or '')
+                if 'AzksParallelismOption::' in full or 'AzksParallelismConfig::' in full:
+                    continue   # the configuration type's own methods (their arithmetic is judged by C14.PANIC.levels_arithmetic)
                 if last in ALLOWED_CALLEES or nm.endswith('spawn') or (s.get('fn') or '').startswith(('core::fmt', 'alloc::fmt', 'log::', 'core::ops::function')):
                     continue
                 bad.append('%s receives a parallelism value (arg %s) at %s' % (nm, ta, b.loc(pos)))
@@ -251,3 +257,50 @@ def hidden_state(ctx):
     ctx.ob('C14.EFFECT.readonly_api', 'RF-EFFECT', not bad and not wr and len(meths) >= 7, 'akd::directory::ReadOnlyDirectory', None,
            'ReadOnlyDirectory exposes %s; none reaches a storage write' % meths if not bad and not wr else
            'ReadOnlyDirectory can change the directory through %s' % (bad + wr))
+
+
+def levels_arithmetic(ctx):
+    """a panic for one parallelism setting is a result that depends on the setting: every subtraction on a `u8`
+    (the type of the parallel-levels plumbing, the only u8 arithmetic in the tree code) must sit on the side of a
+    comparison of the same value with a constant that makes it non-negative (`if x <= 1 { None } else { Some(x - 1) }`).
+    (Seeded change C14-r1-a computed `levels - 1` unguarded: Static(0) underflows.)"""
+    prog = ctx.prog
+    n, bad = 0, []
+    for p, b in ds.nontest_bodies(prog, ('akd',)):
+        if not p.startswith('akd::append_only_zks::'):
+            continue
+        locs = b.raw['locals']
+        for pos, st in b.stmts():
+            if st.get('k') != 'assign' or st['r']['k'] != 'bin' or not st['r']['op'].startswith('Sub'):
+                continue
+            a = st['r']['a']
+            q = a.get('m') or a.get('c')
+            if not q or len(q) != 1 or locs[q[0]]['ty'] != 'u8':
+                continue
+            n += 1
+            e = b._expr_rvalue(st['r'], pos, 0)
+            x, c = e[2], e[3]
+            if c[0] != 'const' or not isinstance(c[1], int):
+                bad.append('%s: u8 subtraction by a non-constant' % b.loc(pos))
+                continue
+            safe = False
+            for sb, t in b.switches():
+                cpos = (sb, len(b.blocks[sb]['s']))
+                cond = b.expr_op(t['d'], cpos)
+                if cond[0] == 'discr':
+                    continue
+                zero = [tb for v, tb in t['vals'] if v == 0]
+                for truth, tgt in ((True, t['else']), (False, zero[0] if zero else None)):
+                    if tgt is None or not edge_dominates(b, (sb, tgt), pos[0]):
+                        continue
+                    for fc in norm_bool(cond, truth):
+                        # known on this edge: fc holds.  ('rel','lt',a,b): a < b ; ('rel','le',a,b): a <= b
+                        if fc[0] == 'rel' and fc[1] in ('lt', 'le') and fc[3] == x and fc[2][0] == 'const' and isinstance(fc[2][1], int):
+                            k = fc[2][1] + (1 if fc[1] == 'lt' else 0)     # x >= k
+                            safe = safe or k >= c[1]
+            if not safe:
+                bad.append('%s: `%s` is not on the safe side of a comparison of that value with a constant' % (b.loc(pos), show(e)[:40]))
+    ctx.ob('C14.PANIC.levels_arithmetic', 'RF-PANIC', not bad and n >= 3, 'akd::append_only_zks', bad[0].split(': ')[0] if bad else None,
+           '%d subtractions on parallel-levels values, each guarded against underflow' % n if not bad and n >= 3 else
+           'parallel-levels arithmetic can underflow for some configuration (panic = result depends on the setting): %s' % (bad or 'only %d sites found' % n),
+           key='RF-PANIC|levels_arithmetic')
